@@ -1697,7 +1697,7 @@ fn volume_ops(case: usize) -> Vec<String> {
         2 | 3 => {
             // the packet sequence crosses 16383 -> 16384 (2 -> 4 varint bytes) inside one flush of many small messages
             let c = chans(300_000);
-            ops.push(cfg_line(60_000, &c, &c));
+            ops.push(cfg_line(200_000, &c, &c));
             ops.extend(["cli 0", "add 100", "setc 0"].iter().map(|x| x.to_string()));
             for _ in 0..16_383 {
                 ops.push("send c0 0 aa".into());
@@ -1717,6 +1717,14 @@ fn volume_ops(case: usize) -> Vec<String> {
             ops.push("flush c0".into());
             ops.push("stat c0".into());
             ops.push("dump c0".into());
+            // with 4-byte sequence numbers: messages of more than 64 slices whose last slice is as large as / a little
+            // smaller than a full one, and whose length is a few bytes past a slice boundary
+            for (k, len) in [70 * 1200 + 88usize, 70 * 1200, 70 * 1200 + 1199, 65 * 1200 + 1].iter().enumerate() {
+                ops.push(format!("send c0 {} {}", if case == 2 { 0 } else { 2 }, hex(&pat(*len, 20 + k as u8))));
+                ops.push("upd c0 1000".into());
+                ops.push("flush c0".into());
+            }
+            ops.push("stat c0".into());
         }
         _ => {
             // one tick: unreliable small messages that need two packets + reliable traffic; the reliable packet is lost,
@@ -2175,9 +2183,10 @@ fn gen_term(rng: &mut Rng) -> String {
             s
         }
         1 => {
-            let n = rng.pick(&[0usize, 1, 2, 3, 10, 100, 600]);
+            // the unreliable channel packs messages until their serialised size passes SLICE_SIZE: up to 1200 empty ones
+            let n = rng.pick(&[0usize, 1, 2, 3, 10, 100, 600, 601, 700, 1199, 1200]);
             let mut s = format!("SU {} {} {}", seq, ch, n);
-            let mut budget = 1300i64;
+            let mut budget = if n > 600 { 1200i64 - n as i64 } else { 1300i64 };
             for _ in 0..n {
                 let l = (rng.pick(&[0usize, 0, 1, 5, 63, 64, 100, 600, 1199, 1200]) as i64).min(budget.max(0)) as usize;
                 budget -= l as i64 + 2;
